@@ -110,9 +110,25 @@ def filterWhy (tbl : List Repl) : List Line → List Out → String
     | none => "marker-replaces-incomplete-run"
   | _, .unknown :: _ => "line-not-from-input"
 
+/-- an output that IS a rendering but not the model's: what is the first difference?  (`model`, then `impl`) -/
+def exactWhy : List Out → List Out → String
+  | [], [] => "ok"
+  | .marker _ :: _, .copy _ :: _ => "complete-run-not-collapsed"      -- a line is copied where a complete run starts
+  | .marker m :: ms, .marker m' :: os => if m == m' then exactWhy ms os else "marker-not-first-match"
+  | m :: ms, o :: os => if m == o then exactWhy ms os else "not-the-model-output"
+  | _, _ => "not-the-model-output"
+
+/-- `Spec.C18` (filter part): the implementation's output IS the model's output (`C18_filter_observer_exact`), which is
+    a rendering (`C18_filter_sound`: only complete runs are collapsed, every other line copied in order) in which
+    every complete run met by the left-to-right scan is collapsed and the first table entry wins
+    (`C18_filter_first_match`).  The clause names say which part of that an output misses: not a rendering at all
+    (`filterWhy`), or a rendering that left a complete run standing / took the marker of a later entry. -/
 def filterClause (tbl : List Repl) (inp : List Line) (out : List Out) : String :=
   if !tablesOK tbl then "empty-pattern-list"
-  else if rendersB tbl inp out then "ok"
+  else if out == filterTb tbl inp then "ok"
+  else if rendersB tbl inp out then
+    let w := exactWhy (filterTb tbl inp) out
+    if w == "ok" then "not-the-model-output" else w
   else
     let w := filterWhy tbl inp out
     if w == "ok" then "not-a-rendering" else w
@@ -238,8 +254,9 @@ def arrive (aw : Await) (lv : Nat) (viaCall : Bool) (e : Err) : Err × Option Fr
 
 /-- which frame `_continue_on_generator`'s `except:` clause stores in `_frame` when it is still None -/
 inductive FrameRule where
-  | deepest    -- async_task.py:238-243 as written: `while tb.tb_next is not None: tb = tb.tb_next`
-  | own        -- any variant that stays inside the task's own synchronous frames (read from the source by the harness)
+  | deepest    -- async_task.py before the fix: `while tb.tb_next is not None: tb = tb.tb_next`
+  | own        -- async_task.py as repaired: the walk stops before the first asynq frame (`debug._should_skip_frame`),
+               -- i.e. inside the task's own synchronous frames (read from the source by the harness)
   deriving Repr, DecidableEq, Inhabited
 
 /-- the deepest frame reached from `f` without entering a library frame (where another asynq call begins) -/
@@ -430,21 +447,21 @@ def stackSafe (bottom : Bottom) : Nat → List Level → Bool
     if unsafeHere bottom lv L rest then (L :: rest).all (fun M => !M.orphan)
     else stackSafe bottom (lv + 1) rest
 
-def firstWrong (levels : List Level) (expected got : List Nat) (i : Nat := 0) : String :=
-  match expected, got with
-  | x :: xs, y :: ys =>
-    if x == y then firstWrong levels xs ys (i + 1)
-    else match levels[i]? with
-      | some L => if L.await == .sync then "stack-foreign-entry-sync" else "stack-foreign-entry-yield"
-      | none => "stack-foreign-entry"
-  | [], [] => "ok"
-  | _, _ => "stack-length"
+/-- the name of a WRONG answer given to an orphan (`exp` = the reference answer, `ls ≠ exp`).
+    "stack-foreign-entry-sync" is the signature of the one recorded defect (`_continue_on_generator` storing the deepest
+    frame of the glued traceback, `FrameRule.deepest`); it is given ONLY to the very answer the model of that defective
+    code predicts for this orphan of this chain, and only on chains outside `stackSafe`.  Any other wrong answer - on a
+    chain where the theorem `C18_glue_refines_partial` says the code is right, or a wrong answer that is not the
+    predicted one - is "stack-orphan-wrong" (audit 2, N8: the old `firstWrong` looked only at the await style of the
+    level at the first wrong index, so the recorded finding swallowed every new defect there). -/
+def orphanWrongName (bottom : Bottom) (levels : List Level) (lv : Nat) (ls : List Nat) : String :=
+  if !stackSafe bottom 0 levels && (runTop .deepest bottom levels).contains (.stack .orphan lv ls)
+  then "stack-foreign-entry-sync" else "stack-orphan-wrong"
 
 /-- diagnosis of ONE event of the implementation that sits in the right slot (same kind and level as the reference) -/
 def glueEventClause (bottom : Bottom) (levels : List Level) : Event → String
   | .stack .orphan lv ls =>
-    let exp := List.range (lv + 1) ++ [1000 + lv]
-    if ls == exp then "ok" else firstWrong levels exp ls
+    if ls == List.range (lv + 1) ++ [1000 + lv] then "ok" else orphanWrongName bottom levels lv ls
   | .stack _ lv ls => if ls == List.range (lv + 1) then "ok" else "stack-in-body"
   | .result r =>
     match r, ref bottom 0 levels with
@@ -532,12 +549,20 @@ structure SchedSt where
   active : Bool
   deriving Repr, DecidableEq, Inhabited
 
+/-- `error._traceback`, the attribute asynq (`_accept_error`) and qcore (`prepare_for_reraise`) keep on an exception -/
+inductive TbAttr where
+  | absent    -- no `_traceback` attribute
+  | isNone    -- the attribute exists and is None
+  | real      -- it holds a traceback object
+  | garbage   -- it holds something that is neither None nor a traceback (nothing in asynq / qcore writes that)
+  deriving Repr, DecidableEq, Inhabited
+
 /-- inputs of `format_error(error, tb=None)` -/
 structure FeIn where
   isNone : Bool
   isExc : Bool                -- isinstance(error, BaseException)
-  tbAttr : Option Bool        -- none: no `_traceback` attribute; some b: it exists and is a real traceback iff b
-  tbArg : Bool                -- a traceback object passed as `tb`
+  tbAttr : TbAttr             -- `error._traceback`
+  tbArg : Bool                -- a traceback object passed as `tb` (False: `tb=None`)
   deriving Repr, DecidableEq, Inhabited
 
 /-- the only thing about a held value that matters to `"...%s..." % value`: is it a tuple, and of what length
@@ -650,19 +675,22 @@ def taskStr (t : TaskSt) : Shown :=
 def batchStr (b : BatchSt) : Shown :=
   .batch (if b.computed && b.err then .cancelled else if b.computed then .flushed else .pending) b.items
 
-/-- debug.py:115-141 `format_error` -/
+/-- debug.py:115-141 `format_error`: which kind of text it returns when it returns -/
 def formatError (i : FeIn) : FeShown :=
   if i.isNone then .none
-  else if i.tbAttr.isSome || i.tbArg then
+  else if i.tbAttr != .absent || i.tbArg then
     -- `tb = tb or error._traceback; traceback.format_exception(error.__class__, error, tb)`
-    if i.tbArg || i.tbAttr == some true then .withTraceback else .onlyException
+    if i.tbArg || i.tbAttr == .real then .withTraceback else .onlyException
   else if i.isExc then .onlyException      -- `traceback.format_exception_only`
   else .empty
 
-/-- does `format_error` raise?  debug.py:120-122: `traceback.format_exception(error.__class__, error, tb)` reads
-    `error.__traceback__` / `__cause__` / `__suppress_context__`: AttributeError for anything that is no exception.
+/-- does `format_error` raise?  debug.py:120-122: `traceback.format_exception(error.__class__, error, tb)`
+    (a) reads `error.__traceback__` / `__cause__` / `__suppress_context__`: AttributeError for anything that is no
+    exception; (b) walks `tb = tb or error._traceback` with `tb.tb_frame` / `tb.tb_next`: AttributeError for a stored
+    `_traceback` that is neither None nor a traceback, unless a real traceback was passed (`tb or ..` short-circuits).
     (Not an exception and no traceback anywhere: debug.py:125-126 `tb_list = []`, no failure.) -/
-def feRaises (i : FeIn) : Bool := !i.isNone && !i.isExc && (i.tbAttr.isSome || i.tbArg)
+def feRaises (i : FeIn) : Bool :=
+  !i.isNone && ((!i.isExc && (i.tbAttr != .absent || i.tbArg)) || (i.tbAttr == .garbage && !i.tbArg))
 
 def subset (a b : List Nat) : Bool := a.all fun x => b.contains x
 
@@ -703,10 +731,11 @@ def render : Obj → Op → Res
     -- futures.py:162-163 `if self._in_repr:` while futures.py:208-215 / 227-234 assign `_in_repr` after `set_value(..)`
     if inReprSet then .ok .text else .raised .attributeError
 
-/-- is the cell inside the statement?  "format_error accepts any EXCEPTION with or without traceback": what it does
-    with something that is neither None nor an exception is not judged (it is still modelled and compared) -/
+/-- is the cell inside the statement?  "format_error accepts any EXCEPTION with or without traceback": the first
+    argument is None or an exception, and `_traceback` - the private attribute in which asynq keeps the glued traceback -
+    is absent, None or a traceback.  What the function does outside that is still modelled and compared, not judged. -/
 def inStatement : Obj → Bool
-  | .fmtErr i => i.isNone || i.isExc
+  | .fmtErr i => (i.isNone || i.isExc) && i.tbAttr != .garbage
   | _ => true
 
 /-- `Spec.C18` (totality part): the diagnostic of an object inside the statement produced a text (and, where the
